@@ -391,6 +391,10 @@ def rule_triangle(run: Run, prog: Program) -> int:
     if unsupported:
         run.add("E11.T", fn.short, "sign logic", UNDECIDED, f"outside the vocabulary of the sign interpreter: {unsupported}", fn.loc)
         return n
+    if not hasattr(run, "enumerated"):
+        run.enumerated, run.case_samples = {}, {}
+    run.enumerated["E11.T"] = n
+    run.case_samples["E11.T"] = ["(l1, l2, l3) = (+, 0, +), sum +, vectorised path -> inside", "(l1, l2, l3) = (+, -, 0), sum 0 (point at infinity), scalar path -> outside"]
     for msg in notes:
         run.add("E11.T", fn.short, msg[:80], UNDECIDED, msg, fn.loc)
     if wrong:
